@@ -210,11 +210,11 @@ type ledgerFamilyOpts struct {
 	repoPattern string // tests of vm/embedded/tests traced in the quick tier
 	walks       int
 	walkLen     int
-	tight       bool // one more walk with tight ZNN / QSR maximum supplies
-	longStall   bool // one more walk (no sporks) with an eleven-epoch silence in the middle
-	reorgs      int // reorganisation scenarios (reorg.go)
-	dust        bool // dust-backers scenarios (dust.go)
-	cells       int // batches of CallCells.tla cells (cells.go)
+	tight       bool                       // one more walk with tight ZNN / QSR maximum supplies
+	longStall   bool                       // one more walk (no sporks) with an eleven-epoch silence in the middle
+	reorgs      int                        // reorganisation scenarios (reorg.go)
+	dust        bool                       // dust-backers scenarios (dust.go)
+	cells       int                        // batches of CallCells.tla cells (cells.go)
 	relevant    func(v ledgerVerdict) bool // is this rejection about this property?
 }
 
